@@ -1,4 +1,4 @@
-CONSTANTS B = 4  MAXB = 8
+CONSTANTS B = 4  MAXB = 12
 SPECIFICATION TSpec
 POSTCONDITION Accepted
 CHECK_DEADLOCK FALSE
